@@ -214,24 +214,28 @@ def renderKey (k : InstKey) : String :=
   ".".intercalate k.path ++ "[" ++ ",".intercalate (k.forks.map fun f =>
     f.1 ++ "=" ++ (match f.2 with | .i n => toString n | .k s => quote s | .none => "-")) ++ "]"
 
-/-- observed fork part `a` against den's `b`: equal, or `b` is the "no element"
-placeholder of a mapped call over an empty collection (the run-time then names
-the part arbitrarily: undetermined, or index 0) -/
-def partMatch (a b : String × Idx) : Bool :=
-  a.1 == b.1 && (a.2 == b.2 || b.2 == Idx.none)
+/-- observed fork part `a` against den's `b`.  Indices: equal, or `b` is the "no
+element" placeholder of a mapped call over an empty collection (the run-time
+then names the part arbitrarily: undetermined, or index 0).  Call ids: equal —
+or the observed id is not one of the instance's enclosing mapped calls at all:
+when a map call splits the merged output of an earlier sibling map call
+(`map call B(x = split A.out)`), the run-time identifies B's fork dimension with
+A's and names the part after A. -/
+def partMatch (ids : List String) (a b : String × Idx) : Bool :=
+  (a.1 == b.1 || !ids.contains a.1) && (a.2 == b.2 || b.2 == Idx.none)
 
 /-- The run-time does not fork a stage over an enclosing mapped call when none of
 its inputs depends on the split value: one observed fork then stands for every
 index.  An observed fork (its parts = a sub-list of the enclosing mapped calls)
 *covers* a den instance when the paths agree and its parts are a sub-list of the
 instance's fork list. -/
-def subList : List (String × Idx) → List (String × Idx) → Bool
+def subList (ids : List String) : List (String × Idx) → List (String × Idx) → Bool
   | [], _ => true
   | _ :: _, [] => false
-  | a :: as, b :: bs => if partMatch a b then subList as bs else subList (a :: as) bs
+  | a :: as, b :: bs => if partMatch ids a b then subList ids as bs else subList ids (a :: as) bs
 
 def covers (obs inst : InstKey) : Bool :=
-  obs.path == inst.path && subList obs.forks inst.forks
+  obs.path == inst.path && subList (inst.forks.map (·.1)) obs.forks inst.forks
 
 def oracleOf (outs : List (InstKey × J)) : Oracle := fun k =>
   (outs.find? fun o => covers o.1 k).map (·.2)
@@ -317,6 +321,24 @@ def handle (op : String) (args : List String) : Option String :=
       | _ => none
     let val ← pJ (← parseSX v)
     pure (render (projPath ss ty.ty pth val) ++ "\t" ++ render (resolvePath ss ty.ty pth val))
+  | "projnarrow", [st, t, path, dest, v] => do
+    -- LazyArgumentMap.Path(path, source = t, dest): project, then filter to dest
+    let ss ← match (← parseSX st) with
+      | .l (.a "structs" :: ss) => ss.mapM fun s =>
+          match s with
+          | .l (.a "s" :: .a n :: ps) => do pure (n, (← ps.mapM pParam))
+          | _ => none
+      | _ => none
+    let ty ← pParam (← parseSX t)
+    let dty ← pParam (← parseSX dest)
+    let pth ← match (← parseSX path) with
+      | .l (.a "path" :: ps) => names ps
+      | _ => none
+    let val ← pJ (← parseSX v)
+    let rt := pathTy ss ty.ty pth
+    pure (s!"{rt.base} {rt.mapDim} {rt.arrDim}\t" ++
+      render (narrow ss (ss.length + 2) dty.ty (projPath ss ty.ty pth val)) ++ "\t" ++
+      render (narrow ss (ss.length + 2) dty.ty (resolvePath ss ty.ty pth val)))
   | "narrow", [st, t, v] => do
     let ss ← match (← parseSX st) with
       | .l (.a "structs" :: ss) => ss.mapM fun s =>
